@@ -130,6 +130,20 @@ Definition kstep (cmp : bytes -> bytes -> comparison) (m : smap item) (o : rawop
 Definition touches (o : rawop) (k : bytes) : Prop :=
   match o with RPut k' _ _ => k' = k | RRemove ks => In k ks end.
 
+(* every operation of a list is applicable (in the sense of IndexProofs.op_respects_sizes) to the
+   key map produced by its predecessors *)
+Fixpoint ops_resp (cmp : bytes -> bytes -> comparison) (m : smap item) (ops : list rawop) : Prop :=
+  match ops with
+  | [] => True
+  | o :: r => op_respects_sizes (mkIstate m [] 0 0 0 0) o /\ ops_resp cmp (kstep cmp m o) r
+  end.
+Lemma ops_resp_app cmp a : forall m b,
+  ops_resp cmp m (a ++ b) <-> ops_resp cmp m a /\ ops_resp cmp (fold_left (kstep cmp) a m) b.
+Proof.
+  induction a as [|o a IH]; intros m b; cbn [app ops_resp fold_left]; [tauto|].
+  rewrite IH. tauto.
+Qed.
+
 (* an entry of the write log: step, thread, call number, operation *)
 Record wlent := mkWl { wl_p : nat; wl_t : nat; wl_j : nat; wl_o : rawop }.
 
@@ -851,6 +865,69 @@ Section Lin.
           * unfold tst in Ht. rewrite Ht in Ht2. injection Ht2 as <-.
             exfalso. apply (Hpc w). exact Hpc2.
         + rewrite (st_S_none n Hn' E). reflexivity.
+    Qed.
+
+    (* the versions handed out are dense and follow the log: the entry at index i of the log was
+       written with version i + 1 (g_nextv is bumped by exactly the WLockW steps) *)
+    Lemma cstep_nextv g t g' : step g t = Some g' ->
+      g_nextv g' = g_nextv g \/ exists ts w, tget (g_thr g) t = Some ts /\ t_pc ts = WLockW w.
+    Proof.
+      unfold cstep. destruct (tget (g_thr g) t) as [ts|] eqn:Ht; [|discriminate].
+      destruct (t_pc ts) eqn:Hpc;
+        try (solve [cbn zeta;
+                    repeat (match goal with
+                            | |- (match ?x with _ => _ end = _) -> _ => destruct x
+                            end); try discriminate; intros E; injection E as <-; left; reflexivity]).
+      intros _. right. exists ts, w. split; [reflexivity|exact Hpc].
+    Qed.
+
+    Theorem wlog_versions n : (n <= NN)%nat ->
+      g_nextv (st n) = 1 + N.of_nat (length (wlog n)).
+    Proof.
+      induction n as [|n IH]; intros Hn; [reflexivity|].
+      specialize (IH ltac:(lia)). assert (Hn' : (n < NN)%nat) by lia.
+      cbn [wlog]. rewrite app_length, Nat2N.inj_add, N.add_assoc, <- IH. clear IH.
+      destruct (tst n (who n)) as [ts|] eqn:Ht.
+      2:{ rewrite (st_S_none n Hn').
+          - unfold wev. rewrite Ht. cbn [length]. lia.
+          - apply step_needs_thread. exact Ht. }
+      destruct (classic_wlockw (t_pc ts)) as [(w & Hpc)|Hpc].
+      - rewrite (wev_at n ts w Ht Hpc). cbn [length].
+        destruct (C04_apply_never_panics H cmp cmp_refl cmp_eq cmp_antisym cmp_trans nops bad ckbad thr0
+                    thr0_nodup cas0 cas0_sorted cas0_named NoCollideC (st n) (who n) ts w
+                    (st_reach n) Ht Hpc) as (_ & _ & idx' & un & Ea).
+        destruct (step (st n) (who n)) as [g'|] eqn:Es.
+        + rewrite (st_S_some n g' Hn' Es). revert Es.
+          unfold cstep. unfold tst in Ht. rewrite Ht, Hpc. cbn zeta. rewrite Ea.
+          intros E. injection E as <-. cbn [g_nextv]. lia.
+        + exfalso. revert Es. unfold cstep. unfold tst in Ht. rewrite Ht, Hpc. cbn zeta. rewrite Ea.
+          discriminate.
+      - rewrite (wev_nil n ts Ht Hpc). cbn [length].
+        destruct (step (st n) (who n)) as [g'|] eqn:E.
+        + rewrite (st_S_some n g' Hn' E).
+          destruct (cstep_nextv _ _ _ E) as [K|(ts2 & w & Ht2 & Hpc2)].
+          * rewrite K. lia.
+          * unfold tst in Ht. rewrite Ht in Ht2. injection Ht2 as <-.
+            exfalso. apply (Hpc w). exact Hpc2.
+        + rewrite (st_S_none n Hn' E). lia.
+    Qed.
+
+    (* every logged operation was applicable to the key map it met (the hypothesis under which
+       the sequential replay of the same operations cannot fail: IndexProofs.op_respects_sizes) *)
+    Theorem wlog_respects n : (n <= NN)%nat ->
+      ops_resp cmp [] (map wl_o (wlog n)).
+    Proof.
+      induction n as [|n IH]; intros Hn; [exact I|].
+      specialize (IH ltac:(lia)). assert (Hn' : (n < NN)%nat) by lia.
+      cbn [wlog]. rewrite map_app. apply ops_resp_app. split; [exact IH|].
+      rewrite <- (C05_km_is_fold_of_writes n ltac:(lia)).
+      destruct (tst n (who n)) as [ts|] eqn:Ht; [|unfold wev; rewrite Ht; exact I].
+      destruct (classic_wlockw (t_pc ts)) as [(w & Hpc)|Hpc].
+      - rewrite (wev_at n ts w Ht Hpc). cbn [map wl_o ops_resp]. split; [|exact I].
+        pose proof (window_respects H cmp bad thr0 cas0 (st n) (who n) ts w (rinv' _ (st_reach n)) Ht
+                      (or_intror (or_intror Hpc))) as R.
+        destruct (wop w); [|exact I]. exact R.
+      - rewrite (wev_nil n ts Ht Hpc). exact I.
     Qed.
 
 
